@@ -82,6 +82,13 @@ CLAIMED["C04"] = dict(
     ref="DESIGN.md 4/C04",
 )
 
+CLAIMED["C19"] = dict(
+    technique="must/may event flow over the search loop body (which successor families are enqueued before an iteration ends), FIFO-discipline effect check of the work list, guard extraction of the only return, copy-before-advance check, depth bookkeeping; dataflow of the encoder's pattern arguments to the validator's literal and table cell",
+    text="A breadth-first search is shortest and complete iff the queue is FIFO and every dequeued node enqueues all its successors; it is sound iff it returns only on a complete match with copied matchers. The check decides those structural conditions on all paths of the loop body. Known finding K2: the consume branch ends the iteration, so the search is greedy.",
+    note="Trusted: deque FIFO semantics; the matcher is C18's subject; candidate-set computation is not decided.",
+    ref="DESIGN.md 4/C19",
+)
+
 NOT_APPLICABLE = {
     "C12": "arithmetic over unbounded integers (quantisation error bounds, monotonicity of a rational formula): no structural clause; needs algebra/solver or execution",
     "C13": "partition/telescoping identities of floor arithmetic on runtime sizes; the functions are spec-pinned arithmetic with nothing to decide from code shape",
